@@ -2,6 +2,10 @@ import PyodaProofs.C06
 import PyodaProofs.C06Source
 import PyodaProofs.C06Validate
 import PyodaProofs.C06Maps
+import PyodaProofs.GenAgreeC14
+import PyodaProofs.GenAgreeC14S
+import PyodaProofs.GenAgreeC14V
+import PyodaProofs.GenAgreeC14W
 
 #print axioms Pyoda.C06.ids_sorted
 #print axioms Pyoda.C06.ids_perm
@@ -21,3 +25,66 @@ import PyodaProofs.C06Maps
 #print axioms Pyoda.C06.windowsToTzdb_canonical
 #print axioms Pyoda.C06.tzdbToWindows_entries
 #print axioms Pyoda.C06.tzdbToWindows_direct
+#print axioms Pyoda.GenAgree.C14.gen_Reader_ctor_eq
+#print axioms Pyoda.GenAgree.C14.gen_Reader_readByte_eq
+#print axioms Pyoda.GenAgree.C14.gen_Reader_hasMoreData_eq
+#print axioms Pyoda.GenAgree.C14.gen_Reader_readInt16_eq
+#print axioms Pyoda.GenAgree.C14.gen_Reader_readInt32_eq
+#print axioms Pyoda.GenAgree.C14.gen_Reader_readInt64_eq
+#print axioms Pyoda.GenAgree.C14.gen_Reader_readVarint_loop1_eq
+#print axioms Pyoda.GenAgree.C14.gen_Reader_readVarint_eq
+#print axioms Pyoda.GenAgree.C14.gen_Reader_readCount_eq
+#print axioms Pyoda.GenAgree.C14.gen_Reader_readSignedCount_eq
+#print axioms Pyoda.GenAgree.C14.gen_Reader_readMilliseconds_eq
+#print axioms Pyoda.GenAgree.C14.gen_Reader_readOffset_eq
+#print axioms Pyoda.GenAgree.C14.gen_Reader_readTransitionNone_eq
+#print axioms Pyoda.GenAgree.C14.gen_Reader_readTransitionSome_eq
+#print axioms Pyoda.GenAgree.C14.gen_Reader_readString_loop1_eq
+#print axioms Pyoda.GenAgree.C14.gen_Reader_readString_eq
+#print axioms Pyoda.GenAgree.C14.gen_Reader_readDictionary_loop1_eq
+#print axioms Pyoda.GenAgree.C14.gen_Reader_readDictionary_eq
+#print axioms Pyoda.GenAgree.C14.gen_YearOffset_read_eq
+#print axioms Pyoda.GenAgree.C14.gen_Recurrence_read_eq
+#print axioms Pyoda.GenAgree.C14.gen_MapZone_ctor_eq
+#print axioms Pyoda.GenAgree.C14.gen_MapZone_read_loop1_eq
+#print axioms Pyoda.GenAgree.C14.gen_MapZone_read_eq
+#print axioms Pyoda.GenAgree.C14.gen_ZoneLocation_read_eq
+#print axioms Pyoda.GenAgree.C14.gen_WindowsZones_read_loop1_eq
+#print axioms Pyoda.GenAgree.C14.gen_WindowsZones_read_eq
+#print axioms Pyoda.GenAgree.C14.gen_Zone1970Location_read_loop1_eq
+#print axioms Pyoda.GenAgree.C14.gen_Zone1970Location_read_eq
+#print axioms Pyoda.GenAgree.C14S.gen_Field_ctor_eq
+#print axioms Pyoda.GenAgree.C14S.gen_Field_getId_eq
+#print axioms Pyoda.GenAgree.C14S.gen_readFields_step
+#print axioms Pyoda.GenAgree.C14S.gen_Field_readFieldsNext_loop1_eq
+#print axioms Pyoda.GenAgree.C14S.gen_Field_readFieldsNext_eq
+#print axioms Pyoda.GenAgree.C14V.gen_Validate_canonAndPrimary_loop1_eq
+#print axioms Pyoda.GenAgree.C14V.gen_Validate_canonAndPrimary_loop2_eq
+#print axioms Pyoda.GenAgree.C14V.gen_Validate_canonAndPrimary_eq
+#print axioms Pyoda.GenAgree.C14V.gen_Validate_locations_loop1_eq
+#print axioms Pyoda.GenAgree.C14V.gen_Validate_locations_eq
+#print axioms Pyoda.GenAgree.C14V.gen_Validate_locationsNone_eq
+#print axioms Pyoda.GenAgree.C14V.gen_Validate_locations1970_loop1_eq
+#print axioms Pyoda.GenAgree.C14V.gen_Validate_locations1970_eq
+#print axioms Pyoda.GenAgree.C14V.gen_Validate_locations1970None_eq
+#print axioms Pyoda.GenAgree.C14V.gen_Validate_tzdbIds_loop2_eq
+#print axioms Pyoda.GenAgree.C14V.gen_Validate_tzdbIds_loop1_eq
+#print axioms Pyoda.GenAgree.C14V.gen_Validate_tzdbIds_eq
+#print axioms Pyoda.GenAgree.C14W.gen_Writer_ctor_eq
+#print axioms Pyoda.GenAgree.C14W.gen_Writer_writeByte_eq
+#print axioms Pyoda.GenAgree.C14W.gen_Writer_writeVarint_loop1_eq
+#print axioms Pyoda.GenAgree.C14W.gen_Writer_writeVarint_eq
+#print axioms Pyoda.GenAgree.C14W.gen_Writer_writeVarint_neg
+#print axioms Pyoda.GenAgree.C14W.gen_Writer_writeCount_eq
+#print axioms Pyoda.GenAgree.C14W.gen_Writer_writeSignedCount_eq
+#print axioms Pyoda.GenAgree.C14W.gen_Writer_writeInt16_eq
+#print axioms Pyoda.GenAgree.C14W.gen_Writer_writeInt32_eq
+#print axioms Pyoda.GenAgree.C14W.gen_Writer_writeInt64_eq
+#print axioms Pyoda.GenAgree.C14W.gen_Writer_writeMilliseconds_eq
+#print axioms Pyoda.GenAgree.C14W.gen_Writer_writeOffset_eq
+#print axioms Pyoda.GenAgree.C14W.gen_Writer_writeString_eq
+#print axioms Pyoda.GenAgree.C14W.gen_checkNotNullDict_eq
+#print axioms Pyoda.GenAgree.C14W.gen_Writer_writeDictionary_loop1_eq
+#print axioms Pyoda.GenAgree.C14W.gen_Writer_writeDictionary_eq
+#print axioms Pyoda.GenAgree.C14W.gen_Writer_writeTransitionNone_eq
+#print axioms Pyoda.GenAgree.C14W.gen_Writer_writeTransitionSome_eq
